@@ -367,6 +367,19 @@ pub fn structural_probes() -> Vec<Probe> {
         let twin = format!("{PRELUDE}\nuse gc_arena::static_collect;\nfn need<'gc, T: Collect<'gc>>() {{}}\n{twin_items}\nfn main() {{}}\n");
         v.push(Probe { name: format!("static_collect_{}", v.len()), class: format!("static_collect-macro|{n}"), negative: neg, twin });
     }
+    // a root type that is only well-formed if 'gc: 'static: `Rootable!` hides the type under
+    // `dyn for<'gc> Rootable<'gc, Root = ..>`, where rustc does not check well-formedness, and every
+    // callback signature that mentions the root then carries the implied bound 'gc: 'static
+    // (KNOWN FINDING, see KNOWN_FINDINGS.txt: signature `non-wf-root-implies-static`)
+    for (n, marker, mk) in [
+        ("PhantomData marker in a tuple root", "std::marker::PhantomData<&'static Gc<'gc, ()>>", "std::marker::PhantomData"),
+        ("Option<Gc<.., &'static &'gc ()>> carrier in a tuple root", "Option<Gc<'gc, &'static &'gc ()>>", "None"),
+        ("PhantomData<fn(&'static &'gc ())> marker in a tuple root", "std::marker::PhantomData<fn(&'static &'gc ())>", "std::marker::PhantomData"),
+    ] {
+        let neg = format!("{PRELUDE}\ntype Collapsed<'gc> = (Gc<'gc, i32>, {marker});\nthread_local! {{ static STASH: std::cell::Cell<Option<Gc<'static, i32>>> = std::cell::Cell::new(None); }}\nfn main() {{\n    let a = Arena::<Rootable![Collapsed<'_>]>::new(|mc| (Gc::new(mc, 1), {mk}));\n    a.mutate(|mc, _root| {{ let g = Gc::new(mc, 7i32); STASH.with(|s| s.set(Some(g))); }});\n}}\n");
+        let twin = format!("{PRELUDE}\ntype Plain<'gc> = (Gc<'gc, i32>, std::marker::PhantomData<&'static u8>);\nthread_local! {{ static STASH: std::cell::Cell<Option<i32>> = std::cell::Cell::new(None); }}\nfn main() {{\n    let a = Arena::<Rootable![Plain<'_>]>::new(|mc| (Gc::new(mc, 1), std::marker::PhantomData));\n    a.mutate(|mc, _root| {{ let g = Gc::new(mc, 7i32); STASH.with(|s| s.set(Some(*g))); }});\n}}\n");
+        v.push(Probe { name: format!("non_wf_root_{}", v.len()), class: format!("non-wf-root-implies-static|{n}"), negative: neg, twin });
+    }
     // the root must be Collect: the arena releases every object before it drops the root, so the
     // destructor of a root that is not Collect (a user Drop impl reading its Gc, a std Ref guard
     // borrowed from a Gc<RefLock>) would run on freed objects
